@@ -61,7 +61,7 @@ def project(blk, name, meta):
     if blk.op.startswith(('frame', 'relay')): return send_opcodes(blk)
     return ()
 def oracle(name, ib, mb, meta):
-    fails = []; A = B = None; expect = {}; unexpected = set(); faulty = False
+    fails = []; A = B = None; expect = {}; unexpected = set(); faulty = False; mapperB = None
     for i, b in enumerate(ib):
         if b.op.startswith('cfg 0'): A = bytes.fromhex(dict(t.split('=', 1) for t in b.op.split()[2:])['mac'])
         if b.op.startswith('cfg 1'): B = bytes.fromhex(dict(t.split('=', 1) for t in b.op.split()[2:])['mac'])
@@ -83,9 +83,15 @@ def oracle(name, ib, mb, meta):
                 if bytes(x[8:14]) == B:
                     if key not in expect: expect[key] = (x[0], A, bytes(x[2:8]), B)
                 else: unexpected.add(key)
+        elif ctx == 1 and d['tos'] in (0, 1) and d['opc'] == 0 and mapperB is None: mapperB = d['rsrc']
+        elif ctx == 1 and d['tos'] in (0, 1) and d['opc'] == 8: mapperB = None        # a Reset of either discovery service releases the mapper (C05)
         elif ctx == 1 and d['tos'] == 0 and d['opc'] == 6:
             sn = sends_of(b); q = qresp_fields(sn[0][2]) if sn else None
             if q is None: continue
+            if mapperB is not None and d['rsrc'] != mapperB:
+                # a Query of a station that is not B's mapper: whether it is served is left open; what it is told counts as reported
+                for (t, rs, es, ed) in q['descs']: expect.pop((es, rs), None)
+                continue
             listed = {(es, rs): (t, rs, es, ed) for (t, rs, es, ed) in q['descs']}
             if not q['more']:
                 for key, val in expect.items():
